@@ -19,12 +19,14 @@ def git(cwd, *args, check=True):
 
 def build(job):
     """files: list of (name, carries_pattern, state); allow: --allow-dirty"""
-    files, allow, seed, cfg_state = job
+    files, allow, seed, cfg_state = job[:4]
+    subdir = len(job) > 4 and job[4]          # the project (config and files) lives in a sub-directory of the repository and bumpver runs there
+    pre = "pkg/" if subdir else ""
     with drive.scratch_dir("c11") as d:
         root = os.path.join(d, "p")
         os.makedirs(root)
         git(root, "init", "-q", "-b", "main")
-        proj = project.Project(root, vcs=None)
+        proj = project.Project(os.path.join(root, "pkg") if subdir else root, vcs=None)
         keys = {f[0]: (f[3] if len(f) > 3 else f[0]) for f in files}
         files = [f[:3] for f in files]
         pattern_files = [(n, s) for n, pat, s in files if pat]
@@ -41,15 +43,15 @@ def build(job):
         git(root, "commit", "-q", "-m", "init")
         for n, pat, s in files:
             body = (("series 1.2\n" if n == "series.txt" else "version %s\n" % OLD) if pat else "content\n") + "line two\n"
-            p = os.path.join(root, n)
+            p = os.path.join(proj.root, n)
             if s in (" M", "M ", "MM"):
                 proj.write(n, body + "user edit 1\n")
                 if s in ("M ", "MM"):
-                    git(root, "add", n)
+                    git(root, "add", pre + n)
                 if s == "MM":
                     proj.write(n, body + "user edit 1\nuser edit 2\n")
             elif s in ("A ", "AM"):
-                proj.write(n, body); git(root, "add", n)
+                proj.write(n, body); git(root, "add", pre + n)
                 if s == "AM":
                     proj.write(n, body + "user edit\n")
             elif s == "??":
@@ -57,27 +59,27 @@ def build(job):
             elif s == " D":
                 os.remove(p)
             elif s == "D ":
-                git(root, "rm", "-q", n)
+                git(root, "rm", "-q", pre + n)
             elif s in ("R ", "RM"):
-                git(root, "mv", "old_" + n, n)
+                git(root, "mv", pre + "old_" + n, pre + n)
                 if s == "RM":
                     proj.write(n, body + "user edit after rename\n")
         if cfg_state == " M":
-            with open(os.path.join(root, "bumpver.toml"), "a") as f:
+            with open(os.path.join(proj.root, "bumpver.toml"), "a") as f:
                 f.write("# user note\n")
         lines = [ln for ln in git(root, "status", "--porcelain").split("\n") if ln]
         head0 = git(root, "rev-parse", "HEAD").strip()
         before = proj.snapshot()
-        r = drive.cli(["update", "--patch", "--no-fetch"] + (["--allow-dirty"] if allow else []), cwd=root, env=GENV)
+        r = drive.cli(["update", "--patch", "--no-fetch"] + (["--allow-dirty"] if allow else []), cwd=proj.root, env=GENV)
         after = proj.snapshot()
         head1 = git(root, "rev-parse", "HEAD").strip()
         sweep = False
         committed = []
         if head1 != head0:
-            committed = [x for x in git(root, "show", "--name-only", "--format=", "HEAD").split("\n") if x]
+            committed = [x[len(pre):] if x.startswith(pre) else "../" + x for x in git(root, "show", "--name-only", "--format=", "HEAD").split("\n") if x]
             for n, _s in pattern_files + [("bumpver.toml", cfg_state)]:
-                old_c = git(root, "show", "%s:%s" % (head0, n), check=False)
-                new_c = git(root, "show", "%s:%s" % (head1, n), check=False)
+                old_c = git(root, "show", "%s:%s" % (head0, pre + n), check=False)
+                new_c = git(root, "show", "%s:%s" % (head1, pre + n), check=False)
                 if old_c and new_c != old_c.replace(OLD, NEW):
                     sweep = True
             # paths outside the configuration in the bump commit: only without --allow-dirty does the property exclude them
@@ -88,8 +90,8 @@ def build(job):
             # bump commit under --allow-dirty too: bumpver stages the configured paths only
             if any(n in committed for n, pat, st in files if not pat and st in (" M", " D", "??")):
                 sweep = True
-    paths = [n for n, _s in pattern_files] + ["bumpver.toml"]
-    return dict(ev="dirty", tool="git", lines=[glue.cp(ln) for ln in lines], paths=[glue.cp(p) for p in paths], allow=allow, exit=r.exit, changed=before != after if r.exit != 0 else False,
+    paths = [pre + n for n, _s in pattern_files] + [pre + "bumpver.toml"]        # as git names them: relative to the repository root
+    return dict(subdir=bool(subdir), not_committing=bool(subdir and head1 == head0 and r.exit == 0), ev="dirty", tool="git", lines=[glue.cp(ln) for ln in lines], paths=[glue.cp(p) for p in paths], allow=allow, exit=r.exit, changed=before != after if r.exit != 0 else False,
                 sweep=sweep, committed=committed, exc=r.exc or "", states={n: s for n, _p, s in files},
                 spelled=sorted(set(k for n, k in keys.items() if k != n)),
                 dbg="files=%s cfg=%s allow=%s status=%r -> exit=%s committed=%s" % ([(keys[n], "pattern" if p else "other", s) for n, p, s in files], cfg_state, allow, lines, r.exit, committed))
@@ -122,10 +124,16 @@ def run(ctx):
         k = rng.randrange(2, len(names) + 1)
         files = [(n, p, rng.choice(STATES) if rng.random() < 0.5 else "clean", rng.choice(spell.get(n, [n]))) for n, p in names[:k]]
         jobs.append((files, rng.random() < 0.5, 1000 + i, rng.choice(["clean", "clean", "clean", " M"])))
+    for s in STATES:                                      # the project in a sub-directory of the repository, bumpver run from there: if it commits at all, the same rules hold
+        for allow in (False, True):
+            jobs.append(([("pat.txt", True, s), ("other.txt", False, "clean")], allow, len(jobs), "clean", True))
     events = drive.pmap(build, jobs, hooks=False, chunksize=2)
+    ctx.count("subdirectory_runs", sum(1 for e in events if e["subdir"]))
+    ctx.count("subdirectory_runs_that_did_not_commit_at_all", sum(1 for e in events if e["not_committing"]))
+    events = [e for e in events if not e["not_committing"]]          # "When committing ...": a run in which bumpver does not use the VCS at all is outside the statement
     for i, e in enumerate(events):
         e["id"] = i + 1
-    fails, st = tlc.validate_events("Trace_Update", [{k: v for k, v in e.items() if k not in ("dbg", "exc", "committed", "states", "spelled")} for e in events], name="C11")
+    fails, st = tlc.validate_events("Trace_Update", [{k: v for k, v in e.items() if k not in ("dbg", "exc", "committed", "states", "spelled", "subdir", "not_committing")} for e in events], name="C11")
     ctx.add_trace(st)
     by_id = {e["id"]: e for e in events}
     for f in fails:
@@ -134,7 +142,7 @@ def run(ctx):
             ctx.divergence(f["clause"], e["dbg"])
             continue
         pat_states = sorted(set(s for n, s in e["states"].items() if n in ("pat.txt", "src_p2.py", "series.txt") and s != "clean"))
-        ctx.violation(dict(clause=f["clause"], allow=e["allow"], pattern_file_states=pat_states, leading_blank=any(s.startswith(" ") for s in pat_states), rename=("R " in pat_states or "RM" in pat_states), partial_pattern_file_dirty=e["states"].get("series.txt", "clean") != "clean", respelled_key=bool(e["spelled"])),
+        ctx.violation(dict(clause=f["clause"], allow=e["allow"], pattern_file_states=pat_states, leading_blank=any(s.startswith(" ") for s in pat_states), rename=("R " in pat_states or "RM" in pat_states), partial_pattern_file_dirty=e["states"].get("series.txt", "clean") != "clean", project_in_subdirectory=e["subdir"], respelled_key=bool(e["spelled"])),
                       case=dict(what=e["dbg"], exc=e["exc"][:200]))
     ctx.count("repositories", len(events))
     ctx.count("blocked_runs", sum(1 for e in events if e["exit"] != 0))
